@@ -58,6 +58,11 @@ type EdgeVer struct {
 	DHi     int64
 	// PropsPred, when set, stands for props whose exact bytes the engine chooses (VEvolve).
 	PropsPred func(string) bool
+	// Casc marks a version whose soft deletion is the work of a node-delete cascade. The
+	// stamp of such a deletion is chosen by whoever completes the cascade: the runtime
+	// goroutine, or recovery when the process died before the cascade's GUNLINK records
+	// reached the log (then it is the recovery time, later than the original stamp).
+	Casc bool
 }
 
 type EdgeKey struct {
@@ -137,6 +142,7 @@ func (m *Model) DeleteWithCascade(index, id string, lo, hi int64) {
 		for _, v := range vs {
 			if v.Deleted == 0 && v.DHi == 0 && (k.Src == gid || v.Target == gid) {
 				v.DLo, v.DHi = lo, hi
+				v.Casc = true
 			}
 		}
 	}
